@@ -142,13 +142,18 @@ type opCaseResult struct {
 	bad     map[string]string // "INTEGER +" -> what is wrong
 	cases   int
 	pos     string
+	// integer divisions executed while INTEGER / and INTEGER % were evaluated, and the call sites executed on the way:
+	// when those cases are decided and as specified (error on the zero side, L/R resp. L%R on the other and nothing
+	// else), these divisions run only under the divisor test — wherever in the code the test and the division sit
+	divSites  map[*ssa.BinOp]bool
+	callSites map[ssa.CallInstruction]bool
 }
 
 func (m *Model) opCases() *opCaseResult {
 	if m.opCaseRes != nil {
 		return m.opCaseRes
 	}
-	r := &opCaseResult{bad: map[string]string{}}
+	r := &opCaseResult{bad: map[string]string{}, divSites: map[*ssa.BinOp]bool{}, callSites: map[ssa.CallInstruction]bool{}}
 	m.opCaseRes = r
 	ev := m.Method("evaluator", "Evaluator", "Eval")
 	infixT := m.namedType("ast", "InfixExp")
@@ -196,6 +201,18 @@ func (m *Model) opCases() *opCaseResult {
 			lnode, rnode := iObj{"left operand"}, iObj{"right operand"}
 			node := &iStruct{typ: infixT, fields: map[int]any{fOp: constant.MakeString(sym), fL: lnode, fR: rnode}}
 			ip := &Interp{m: m, useGlobals: true, branch: branch}
+			if lk == "INTEGER" && rk == "INTEGER" && (sym == "/" || sym == "%") {
+				ip.instr = func(in ssa.Instruction, _ int) {
+					switch x := in.(type) {
+					case *ssa.BinOp:
+						if (x.Op == token.QUO || x.Op == token.REM) && isInteger(x.X.Type()) {
+							r.divSites[x] = true
+						}
+					case ssa.CallInstruction:
+						r.callSites[x] = true
+					}
+				}
+			}
 			ip.call = func(c *ssa.Call, args []any) (any, bool) {
 				sc := c.Call.StaticCallee()
 				if sc == ev && len(args) >= 2 {
